@@ -1,7 +1,7 @@
 (* C13 (g) - string.format: the integer, character and string conversions.
    SPEC   lstrlib.c str_format / getformat / checkformat / addlenmod (Lua 5.4.6), which hands each conversion
           specification to the C library's snprintf;
-   MODEL  lib/stringbuilder.nelua writef / scanformat / formatarg / addlenmod, which hands each conversion
+   MODEL  lib/stringbuilder.nelua writef / scanformat / checkformat / formatarg / addlenmod, which hands each conversion
           specification to strprintf.snprintf - by default the same C library function.
    [c99_snprintf] is that function for the directives both sides produce: ISO C99 7.21.6.1 for
    d i u o x X (with the ll length modifier), c and s, flags "-+ #0", width, precision.
@@ -255,13 +255,27 @@ Definition nl_scanformat (rest : bytes) : res (bytes * Z * bytes) :=
   else if c_isdigit (hd0 rem) then Trap                            (* "invalid format (width or precision too long)" *)
   else Val (37 :: fl ++ wp ++ [hd0 rem], hd0 rem, tl rem).
 
+(* checkformat (768ceb2): each conversion takes its own flags, c and p take no precision; the specification must
+   end at the conversion character *)
+Definition nl_checkformat (form : bytes) (c : Z) : bool :=
+  let flags := if (c =? 100) || (c =? 105) then isflagI else if c =? 117 then isflagU
+               else if (c =? 111) || (c =? 120) || (c =? 88) then isflagX
+               else if is_fltconv c then isflagF else isflagC in
+  let precision := negb ((c =? 99) || (c =? 112)) in
+  let '(_, _, rem) := scan flags precision true (tl form) in
+  hd0 rem =? c.
+
 Definition nl_item (rest : bytes) (a : farg) : res (bytes * bytes) :=
   match nl_scanformat rest with
   | Trap => Trap | Unsafe => Unsafe
   | Val (form, conv, rest') =>
       let out (o : option bytes) := match o with Some b => Val (b, rest') | None => Unsafe end in
       let str (s : bytes) :=
-        if Nat.eqb (length form) 2 then Val (s, rest') else out (c99_snprintf form (AStr s)) in
+        if Nat.eqb (length form) 2 then Val (s, rest')
+        else if has_zero s then Trap                               (* 'string contains zeros' (53b4816) *)
+        else out (c99_snprintf form (AStr s)) in
+      if negb (nl_checkformat form conv) then Trap                 (* 'invalid conversion specification' *)
+      else
       match a with
       | AInt v =>
           if conv =? 99 then out (c99_snprintf form (AInt (wrap32 v)))
